@@ -42,6 +42,9 @@ pub enum COp {
     ExchangeIn(u8),
     /// real sleep until the session with p has been idle (measured) for > 1.3 x timeout, then act
     IdleLong(u8, After),
+    /// a short real sleep (10..100 ms, i.e. less than the 120 ms timeout): some sessions age while
+    /// others are refreshed in between
+    Nap(u8),
 }
 
 #[derive(Clone, Debug, PartialEq, Eq, Hash, Serialize, Deserialize)]
@@ -123,6 +126,7 @@ async fn run(case: &Case, rep: &mut CaseReport) -> Option<(String, String)> {
     let mut cut_at: HashMap<usize, u64> = HashMap::new();
     let mut limbo: std::collections::HashSet<usize> = std::collections::HashSet::new();
     let mut long_idles = 0;
+    let mut naps = 0;
     for (opi, op) in case.ops.iter().enumerate() {
         let before: Vec<usize> = w.snaps[0].sessions.iter().filter_map(|s| w.node_by_addr(&s.addr.socket_addr)).collect();
         for (q, t) in &cut_at {
@@ -224,6 +228,14 @@ async fn run(case: &Case, rep: &mut CaseReport) -> Option<(String, String)> {
                 } else {
                     limbo.insert(p);
                 }
+            }
+            COp::Nap(ms) => {
+                if !case.short_timeout || naps >= 3 {
+                    continue;
+                }
+                naps += 1;
+                std::thread::sleep(Duration::from_millis(ms.clamp(10, 100) as u64));
+                rep.class("short-nap(some sessions age, others are refreshed)");
             }
             COp::IdleLong(p, then) => {
                 if !case.short_timeout || long_idles >= 2 {
@@ -414,6 +426,7 @@ impl Property for C15 {
                 5 => (0u8..6).prop_map(COp::ExchangeOut),
                 3 => (0u8..6).prop_map(COp::ExchangeIn),
                 3 => (0u8..6, after()).prop_map(|(p, a)| COp::IdleLong(p, a)),
+                1 => (30u8..100).prop_map(COp::Nap),
             ]
         };
         let free = (2u8..=6, 1u8..=5, any::<bool>(), proptest::collection::vec(op(), 2..16))
@@ -433,7 +446,25 @@ impl Property for C15 {
                 ops.extend(tail);
                 Case { n_peers, capacity: cap, short_timeout: true, ops }
             });
-        prop_oneof![3 => free, 1 => pressure].boxed()
+        // expiry and capacity together: the cache is filled, the oldest session ages beyond the time-out
+        // while the others are refreshed in between, then newcomers arrive (the purge removes the
+        // expired session, the next newcomer needs room)
+        let aging = (2u8..=4, proptest::collection::vec(any::<bool>(), 12), 60u8..85, 1u8..=2, proptest::collection::vec(op(), 0..4)).prop_map(|(cap, dirs, nap, newcomers, tail)| {
+            let n_peers = (cap + 2).min(6);
+            let ex = |i: u8, out: bool| if out { COp::ExchangeOut(i) } else { COp::ExchangeIn(i) };
+            let mut ops: Vec<COp> = (0..cap).map(|i| ex(i, dirs[i as usize])).collect();
+            ops.push(COp::Nap(nap));
+            for i in 1..cap {
+                ops.push(ex(i, dirs[(4 + i) as usize]));
+            }
+            ops.push(COp::Nap(nap));
+            for j in 0..=newcomers {
+                ops.push(ex(cap + j, dirs[(8 + j) as usize]));
+            }
+            ops.extend(tail);
+            Case { n_peers, capacity: cap, short_timeout: true, ops }
+        });
+        prop_oneof![6 => free, 2 => pressure, 1 => aging].boxed()
     }
     fn run(case: &Case) -> CaseReport {
         let mut rep = CaseReport::default();
@@ -447,7 +478,7 @@ impl Property for C15 {
         rep
     }
     fn rule() -> String {
-        "V (real handler, virtual wire) with session_cache_capacity 1..5 and session_timeout in {120 ms real, 1 day}, 2..6 honest peers; ops: complete exchanges in either direction (establish / refresh sessions) and, in the 120 ms regime, at most two real idle periods per case that last until the harness has MEASURED more than 1.3 x timeout since the end of the last op that touched that session, followed by V submitting a request to the idle peer or the idle peer sending V a request under its (unexpired) session. X1: the datagram V then emits does not decrypt under any key V held before the idle period, and a message under the old session is not delivered before a new handshake; X2: V's probe snapshot never lists more sessions than the capacity; X3 (1-day regime): a session disappears only when a new one is established at full capacity, exactly one, and it belongs to the peer least recently used according to the harness ledger. Non-trivial = a measured long idle followed by traffic, or a session established at full capacity.".into()
+        "V (real handler, virtual wire) with session_cache_capacity 1..5 and session_timeout in {120 ms real, 1 day}, 2..6 honest peers; ops: complete exchanges in either direction (establish / refresh sessions) and, in the 120 ms regime, at most two real idle periods per case that last until the harness has MEASURED more than 1.3 x timeout since the end of the last op that touched that session, followed by V submitting a request to the idle peer or the idle peer sending V a request under its (unexpired) session. X1: the datagram V then emits does not decrypt under any key V held before the idle period, and a message under the old session is not delivered before a new handshake; X2: V's probe snapshot never lists more sessions than the capacity; X3 (1-day regime): a session disappears only when a new one is established at full capacity, exactly one, and it belongs to the peer least recently used according to the harness ledger. Short naps (10..100 ms) let some sessions age while others are refreshed; by-construction scenarios: capacity pressure after a re-established session, and the oldest session aging out while the others are refreshed before newcomers arrive. Non-trivial = a measured long idle followed by traffic, or a session established at full capacity.".into()
     }
     fn assumptions() -> Vec<String> {
         vec![
